@@ -252,8 +252,24 @@ def numeric_scores(c):
     return all(x[0] == 't' and len(x[1]) == 2 and x[1][1][0] == 'n' for x in o[1]) or not all(x[0] == 't' and len(x[1]) == 2 for x in o[1])
 
 
+def multi_set(o):
+    """the object contains a frozenset with two or more members (its iteration order, hence WHICH of several defects is
+    reported first, is CPython's business)"""
+    if o[0] == 'f' and len(o[1]) >= 2:
+        return True
+    return o[0] in ('t', 'f', 'l') and any(multi_set(x) for x in o[1])
+
+
+def canon(c, wire):
+    """acceptance is compared exactly; of two rejections the KIND (VoteError / CandidateError - the property admits both) is
+    compared only where it cannot depend on set iteration order (false alarm corrected: DESIGN.md appendix D)"""
+    if c['unit'] == 'validate' and wire in ('(1 %d)' % common.E['VOTE'], '(1 %d)' % common.E['CAND']) and multi_set(c['obj']):
+        return 'reject'
+    return wire
+
+
 def known_class(c, io, mo):
-    if io != mo:
+    if canon(c, io) != canon(c, mo):
         return None
     return {'eliminator-candidate-error': 'C20-eliminator-candidate-error'}.get(c.get('_class'))
 
@@ -408,7 +424,7 @@ def corpus():
 
 
 def explore(ctx, widen=1):
-    kw = dict(nontrivial=nontrivial, spec=spec, known_class=known_class)
+    kw = dict(canon=canon, nontrivial=nontrivial, spec=spec, known_class=known_class)
     ctx.differential('corpus', corpus(), model_line, impl, **kw)
     ctx.differential('grammar', gen_validate(ctx.rng, ctx.n(6000, 80000) * widen), model_line, impl, **kw)
     ctx.differential('eliminator', list(gen_eliminate(ctx.rng, ctx.n(600, 6000) * widen))[:ctx.n(1500, 15000)], model_line, impl, **kw)
@@ -417,4 +433,4 @@ def explore(ctx, widen=1):
 
 
 def replay(ctx, case, stream=None):
-    ctx.differential('replay', [case], model_line, impl, nontrivial=nontrivial, spec=spec, known_class=known_class)
+    ctx.differential('replay', [case], model_line, impl, canon=canon, nontrivial=nontrivial, spec=spec, known_class=known_class)
